@@ -333,13 +333,19 @@ func GenNodes(r *rand.Rand, its []IT, pools []NodePool, o GenOpts) []Node {
 	return nodes
 }
 
-func GenDaemonSets(r *rand.Rand) []DaemonSet {
+func GenDaemonSets(r *rand.Rand, its []IT) []DaemonSet {
 	var out []DaemonSet
 	n := r.IntN(3)
 	for i := 0; i < n; i++ {
 		ds := DaemonSet{Name: fmt.Sprintf("ds-%d", i), CPU: int64(100 * (1 + r.IntN(5))), Mem: int64(64 * (1 + r.IntN(4)))}
-		if r.Float64() < 0.3 {
+		switch x := r.Float64(); {
+		case x < 0.25:
 			ds.NodeSelector = map[string]string{"team": pick(r, []string{"red", "blue"})}
+		case x < 0.5:
+			// restricted to one instance type: several daemon-overhead groups per NodePool
+			ds.NodeSelector = map[string]string{"node.kubernetes.io/instance-type": pick(r, its).Name}
+		case x < 0.6:
+			ds.NodeSelector = map[string]string{"topology.kubernetes.io/zone": pick(r, Zones)}
 		}
 		if r.Float64() < 0.5 {
 			ds.Tolerations = []Toleration{{Operator: "Exists"}}
@@ -359,7 +365,7 @@ func GenScenario(r *rand.Rand, o GenOpts) *Scenario {
 	}
 	its := GenITs(r, o)
 	pools := GenPools(r, its, o)
-	s := &Scenario{ITs: its, Pools: pools, Nodes: GenNodes(r, its, pools, o), DaemonSets: GenDaemonSets(r),
+	s := &Scenario{ITs: its, Pools: pools, Nodes: GenNodes(r, its, pools, o), DaemonSets: GenDaemonSets(r, its),
 		IgnorePrefs: r.Float64() < 0.2, BestEffortMinVal: r.Float64() < 0.3, Parallelism: pick(r, []int{1, 1, 2, 8}), ReservedCapacity: o.Reserved}
 	n := 1 + r.IntN(o.MaxPods)
 	for i := 0; i < n; i++ {
